@@ -81,6 +81,9 @@ def _feed(h, x, depth=0):
     elif isinstance(x, (types.FunctionType, types.BuiltinFunctionType, np.ufunc, types.MethodType)):
         h.update(b"F")
         h.update(getattr(x, "__qualname__", getattr(x, "__name__", "fn")).encode())
+        bound = getattr(x, "__self__", None)
+        if isinstance(x, types.MethodType) and bound is not None and hasattr(bound, "__dict__"):
+            _feed(h, bound, depth + 1)
         clo = getattr(x, "__closure__", None)
         if clo:
             for c in clo:
@@ -143,6 +146,9 @@ def arrays_of(x, out=None, depth=0, seen=None):
         for k, v in x.items():
             arrays_of(k, out, depth + 1, seen)
             arrays_of(v, out, depth + 1, seen)
+    elif isinstance(x, types.MethodType):
+        seen.add(id(x))
+        arrays_of(getattr(x, "__self__", None), out, depth + 1, seen)
     elif isinstance(x, (types.FunctionType,)):
         clo = getattr(x, "__closure__", None)
         if clo:
